@@ -43,7 +43,13 @@ func runC39(r *simkit.Run) {
 	if simkit.Params["partition"] == "strict" {
 		withFaults = false
 	}
+	// a namespace without shard rules forwards CALL: the reply is a chain of result sets read one after the other
+	// from the same backend connection while the first ones are already on their way to the client
+	noRules := !big && simkit.Params["case"] == "" && tp.Chance(1, 6)
 	ns := shardedNamespace("ns1", 2, 0)
+	if noRules {
+		ns = baseNamespace("ns1", 2, 0)
+	}
 	ns.MaxSqlResultSize = limit
 	w, err := NewWorld(r, map[string]*models.Namespace{"ns1": ns}, WorldOpts{})
 	if err != nil {
@@ -52,7 +58,7 @@ func runC39(r *simkit.Run) {
 	}
 	w.Cl.Logf = r.Logf
 	r.SetSiteDensity(0, 0)
-	cfg := fmt.Sprintf("rowLimit=%d big=%v faults=%v", limit, big, withFaults)
+	cfg := fmt.Sprintf("rowLimit=%d big=%v faults=%v shardRules=%v", limit, big, withFaults, !noRules)
 	r.Logf("config %s", cfg)
 
 	// what the backends are to answer for the statement in flight
@@ -72,10 +78,47 @@ func runC39(r *simkit.Run) {
 		if t == "t_plain" {
 			return 9
 		}
+		if strings.HasPrefix(t, "set") {
+			n, _ := strconv.Atoi(strings.TrimPrefix(t, "set"))
+			return n + 1
+		}
 		n, _ := strconv.Atoi(strings.TrimPrefix(t, "t_shard_"))
 		return n
 	}
+	var callSets []string // result sets of the CALL in flight, in order ("set0", "set1", ...)
 	w.Cl.Exec = func(c *mysim.Conn, st *mysim.Stmt) *mysim.Reply {
+		if curMarker != "" && strings.Contains(st.SQL, curMarker) && strings.HasPrefix(strings.ToLower(strings.TrimSpace(st.SQL)), "call ") {
+			var first, last *mysim.Reply
+			for i, name := range callSets {
+				n := rowsFor[name]
+				produced[name] = n
+				base := (i + 1) * 1000000
+				rep := &mysim.Reply{
+					Columns: []myproto.Column{{Name: "id", Type: myproto.TLongLong, Length: 20}, {Name: "pad", Type: myproto.TVarString, Length: uint32(rowSize), Charset: 45}},
+					NRows:   n,
+					RowGen:  func(i int) [][]byte { return [][]byte{[]byte(strconv.Itoa(base + i)), pad} },
+				}
+				if name == cutTable && cutAfter < n {
+					rep.CutAfter, rep.CutReset = cutAfter, cutReset
+					if cutAfter == 0 {
+						rep.CutAfter = 1
+					}
+					r.Fault("backend-cut-mid-result")
+				}
+				if name == stallTable {
+					rep.StallNext = stallFor
+					r.Fault("backend-stalled-between-results")
+				}
+				if first == nil {
+					first = rep
+				} else {
+					last.Next = rep
+				}
+				last = rep
+			}
+			last.Next = &mysim.Reply{} // the procedure's final OK
+			return first
+		}
 		if st.Kind != "select" || curMarker == "" || !strings.Contains(st.SQL, curMarker) {
 			return nil
 		}
@@ -126,9 +169,21 @@ func runC39(r *simkit.Run) {
 			curMarker = fmt.Sprint(m)
 			kind := []string{"unsharded", "single-shard", "multi-shard", "multi-shard", "some-shards"}[tp.Choose(5)]
 			binary := tp.Chance(1, 3)
+			if noRules {
+				kind = []string{"unsharded", "call", "call"}[tp.Choose(3)]
+				if kind == "call" {
+					binary = false
+				}
+			}
 			var sql string
 			var tables []string
+			callSets = nil
 			switch kind {
+			case "call":
+				for i := 0; i < tp.Range(1, 3); i++ {
+					callSets = append(callSets, fmt.Sprintf("set%d", i))
+				}
+				sql, tables = fmt.Sprintf("call p_report(%d)", m), callSets
 			case "unsharded":
 				sql, tables = fmt.Sprintf("select * from t_plain where k = %d", m), []string{"t_plain"}
 			case "single-shard":
@@ -258,12 +313,25 @@ func runC39(r *simkit.Run) {
 				}
 				continue
 			}
-			if len(res) != 1 {
+			if kind == "call" {
+				// every result set of the procedure and its final OK, or an error
+				if len(res) != len(callSets)+1 {
+					r.Failf("C39-silently-truncated", "%s %q: the backend answered with %d result sets %v and a final OK (fault %q); the client received %d results and no error", kind, sql, len(callSets), produced, faulted, len(res))
+					return
+				}
+				r.Probe("multi-result-reply-delivered")
+			} else if len(res) != 1 {
 				r.Failf("C39-malformed-result", "%d results", len(res))
 				return
 			}
 			var got []int
 			rows := res[0].Rows
+			if kind == "call" {
+				rows = nil
+				for _, rs := range res[:len(res)-1] {
+					rows = append(rows, rs.Rows...)
+				}
+			}
 			if binary {
 				for _, br := range res[0].BinRows {
 					rows = append(rows, [][]byte{[]byte(br[0].String())})
